@@ -151,10 +151,54 @@ Definition e_meval (a : sx) : sx :=
   | _ => sx_err
   end.
 
+(* ---- protocol lookups ---------------------------------------------------------------------- *)
+Definition sx_piface (i : p_iface) : sx :=
+  SL [SS (pi_name i); SZ (pi_version i);
+      SL (map (fun m => SL [SS (pm_name m);
+                            SL (map (fun a => SL [SS (pa_name a); SS (pa_type a); sx_ostr (pa_iface a); sx_ostr (pa_enum a)]) (pm_args m))])
+              (pi_msgs i));
+      SL (map (fun e => SL [SS (pn_name e); sx_bool (pn_bitfield e);
+                            SL (map (fun x => SL [SS (pe_name x); SZ (pe_value x)]) (pn_entries e))]) (pi_enums i))].
+
+Definition e_proto (P : pdb) (a : sx) : sx :=
+  match a with
+  | SL [SS op] => if str_eqb op (s2l "dump") then SL (map sx_piface P) else sx_err
+  | SL [SS op; SS iface; SS msg; SZ idx; SZ v] =>
+      let i := Z.to_nat idx in
+      if str_eqb op (s2l "name") then sx_res (sx_opt SS) (get_arg_name P iface msg i)
+      else if str_eqb op (s2l "iface") then sx_res (sx_opt SS) (look_up_interface P iface msg i)
+      else if str_eqb op (s2l "enum") then sx_res (fun l => SL (map SS l)) (look_up_enum P iface msg i v)
+      else sx_err
+  | _ => sx_err
+  end.
+
+(* ((files) (names)) -> what protocol.load leaves under each name *)
+Definition e_load (a : sx) : sx :=
+  match a with
+  | SL [SL files; SL names] =>
+      match get_list (fun f => match f with SL l => get_list get_piface l | _ => None end) files,
+            get_list get_s names with
+      | Some fs, Some ns =>
+          let db := load_files fs in
+          SL (map (fun n => sx_opt sx_piface (od_get pi_name db n)) ns)
+      | _, _ => sx_err
+      end
+  | _ => sx_err
+  end.
+
+Definition e_enumval (a : sx) : sx :=
+  match a with
+  | SS t => sx_res SZ (parse_enum_value t)
+  | _ => sx_err
+  end.
+
 Definition entries (P : pdb) : list (str * (sx -> sx)) :=
   [ (s2l "n2l", e_n2l);
     (s2l "l2n", e_l2n);
     (s2l "mparse", e_mparse);
+    (s2l "proto", e_proto P);
+    (s2l "load", e_load);
+    (s2l "enumval", e_enumval);
     (s2l "meval", e_meval);
     (s2l "session", e_session P) ].
 
